@@ -62,6 +62,27 @@ theorem C09_retain_partition (keep : List Bool) (l : List Obj) :
   rw [← retainKept_eq, ← retainRemoved_eq]
   exact retain_length keep 0 l
 
+/-- the objects `retain` keeps (and those it removes) are a sub-list of the idle queue: their
+relative order — hence the reuse order of the survivors under either queue mode (C08) — is the
+one they had before, whatever the predicate answered and wherever the removed ones sat -/
+theorem C09_retain_keeps_order (keep : List Bool) (b : Bool) (k : Nat) (l : List Obj) :
+    (selectBy keep b k l).Sublist l := by
+  induction l generalizing k with
+  | nil => exact List.Sublist.slnil
+  | cons o rest ih =>
+    simp only [selectBy]
+    split
+    · exact (ih (k + 1)).cons₂ o
+    · exact (ih (k + 1)).cons o
+
+/-- in particular the object at the front (offered first by Fifo) and at the back (offered first
+by Lifo) of the queue after `retain` are the first / last kept ones of the old queue: nothing
+is moved into a removed object's place -/
+theorem C09_retain_step_keeps_order (s s' : State) (i : Nat) (keep : List Bool)
+    (h : stepRetain s i keep = some s') : s'.idle.Sublist s.idle := by
+  rw [(C09_retain_exact s s' i keep h).1]
+  exact C09_retain_keeps_order keep true 0 s.idle
+
 /-- **C09 (take).** `Object::take` — the four steps of `detach_object`, run from any state
 whose `size` does not exceed `max_size` (always the case unless a shrink left a residue):
 the value is handed to the caller (`taken` event after exactly one `detach`), `size` and
